@@ -16,8 +16,18 @@ var LibLoader = packagelib.Loader{
 	Name: "math",
 }
 
+// Each runtime has its own random generator, kept in its registry.
+type rngRegistryKeyType struct{}
+
+var rngRegistryKey = rt.AsValue(rngRegistryKeyType{})
+
+func rng(r *rt.Runtime) *rand.Rand {
+	return r.Registry(rngRegistryKey).Interface().(*rand.Rand)
+}
+
 func load(r *rt.Runtime) (rt.Value, func()) {
 	pkg := rt.NewTable()
+	r.SetRegistry(rngRegistryKey, rt.AsValue(rand.New(rand.NewSource(rand.Int63()))))
 	r.SetEnv(pkg, "huge", rt.FloatValue(math.Inf(1)))
 	r.SetEnv(pkg, "maxinteger", rt.IntValue(math.MaxInt64))
 	r.SetEnv(pkg, "mininteger", rt.IntValue(math.MinInt64))
@@ -307,12 +317,12 @@ func rad(t *rt.Thread, c *rt.GoCont) (rt.Cont, error) {
 	return c.PushingNext1(t.Runtime, y), nil
 }
 
-// TODO: have a per runtime random generator
 func random(t *rt.Thread, c *rt.GoCont) (rt.Cont, error) {
 	var (
-		err error
-		m   int64 = 1
-		n   int64
+		err  error
+		m    int64 = 1
+		n    int64
+		rand = rng(t.Runtime)
 	)
 	switch c.NArgs() {
 	case 0:
@@ -381,7 +391,7 @@ func randomseed(t *rt.Thread, c *rt.GoCont) (rt.Cont, error) {
 		// In Go the seed is only 64 bits so we mangle the seeds
 		seed ^= seed2
 	}
-	rand.Seed(seed)
+	rng(t.Runtime).Seed(seed)
 	return c.PushingNext(t.Runtime, rt.IntValue(seed), rt.IntValue(0)), nil
 }
 
